@@ -5,6 +5,7 @@ import os
 import random
 import subprocess
 
+import orderings
 import queuedefs
 from framework import HARNESS, TRUSTED, Check
 from tla import OUT, ToolError, parse_printed, run_tlc, confirm_rejection
@@ -101,6 +102,35 @@ def run(tier, seed):
     rng = random.Random(seed)
     thorough = tier == "thorough"
     wd = os.path.join(OUT, f"C12_{tier}")
+    # 0. B4: the memory orderings and the program order of publication, read from queue.rs, instantiate QueueRA.tla
+    #    (release/acquire memory model): data-race freedom of the message cells, FIFO / exactly-once
+    try:
+        ra_consts = orderings.extract_queue()
+        skeleton_error = None
+    except ToolError as e:
+        ra_consts, skeleton_error = None, str(e)
+    if ra_consts:
+        # vacuity: with these constants some behaviour must take a message from a re-used slot (second lap)
+        mod, cfg = queuedefs.write_ra("vac", ra_consts, 1, ["p1", "p2"], 2, 4, wd, invariants=["NeverSecondLap"])
+        res = run_tlc(mod, cfg, wd, workers=6, timeout=1200)
+        if res.ok:
+            raise ToolError("QueueRA.tla: no behaviour re-uses a slot (vacuous instance)")
+        for (name, cap, prods, npush, npop) in queuedefs.RA_QUICK + (queuedefs.RA_THOROUGH if thorough else []):
+            mod, cfg = queuedefs.write_ra(name, ra_consts, cap, prods, npush, npop, wd)
+            res = run_tlc(mod, cfg, wd, workers=14, timeout=3000)
+            chk.add_tlc(f"QueueRA[{name}: cap {cap}, {len(prods)} producers x {npush} pushes, {npop} pops] with the "
+                        f"orderings of the source", res)
+            if not res.ok:
+                with open(os.path.join(wd, f"counterexample_{name}.txt"), "w") as f:
+                    f.write("\n".join(res.trace))
+                why = next((ln.strip() for ln in reversed(res.trace) if ln.startswith("/\\ bad = ") and '"no"' not in ln), "")
+                chk.violation(f"with the memory orderings / publication order found in channel/queue.rs {ra_consts} the "
+                              f"release/acquire specification QueueRA.tla violates {res.violation} {why} (instance {name}): "
+                              f"a message cell is accessed by a thread that is not entitled to see its latest write",
+                              dict(engine="queue_ra", orderings=ra_consts, instance=name, counterexample=res.trace[-120:]),
+                              signature=f"ra:{json.dumps(ra_consts, sort_keys=True)}")
+                break
+        chk.sample(dict(kind="orderings extracted from channel/queue.rs", orderings=ra_consts))
     # 1. all interleavings of the atomic steps
     insts = queuedefs.CONCURRENT + (queuedefs.THOROUGH if thorough else [])
     for (name, cap, po, co) in insts:
@@ -223,9 +253,15 @@ def run(tier, seed):
     # the wake-up protocol of the channel built on the queue: Channel.tla, every history of future polls replayed
     import check_chan
     check_chan.channel_part(chk, thorough, wd)
+    if skeleton_error and not chk.violations:
+        # the atomic operations of queue.rs are no longer those QueueRA.tla was written for and nothing else objected
+        raise ToolError(skeleton_error)
     chk.exhaustive = True
     chk.assumptions = TRUSTED + [
-        "interleaving (sequentially consistent) semantics: the effect of weaker memory orderings is not decided here",
+        "MpscQueue.tla has interleaving (sequentially consistent) semantics; the memory orderings are decided on QueueRA.tla, "
+        "a view-based release/acquire model without load buffering whose stores append to the modification order, "
+        "instantiated with the orderings and the publication order read from queue.rs by pattern matching (a shape the "
+        "extractor does not recognise is reported as a tool error, exit 2); close() is not part of QueueRA.tla",
         "the wake-up protocol of Sender::send / Receiver::recv is specified at the granularity of one poll of a future "
         "(Channel.tla: async-event and diatomic-waker by their sequential contract, read from their sources) and replayed "
         "by one thread; its concurrent interleavings are exercised end to end by the Bench checks (a lost wake-up stalls "
